@@ -118,6 +118,15 @@ fn BuildAndStoreLiteralPrefixCode<AllocHT: alloc::Allocator<HuffmanTree>>(
                     .wrapping_add(histogram[i].wrapping_mul(depths[i] as u32) as usize);
             }
         }
+        #[cfg(brotli_verif)]
+        verif_hooks::record(verif_hooks::Event::LiteralCode {
+            input_size,
+            depths: {
+                let mut d = [0u8; 256];
+                d.clone_from_slice(&depths[..256]);
+                d
+            },
+        });
         literal_ratio
             .wrapping_mul(125)
             .wrapping_div(histogram_total)
@@ -240,6 +249,12 @@ fn EmitUncompressedMetaBlock(
     storage_ix: &mut usize,
     storage: &mut [u8],
 ) {
+    #[cfg(brotli_verif)]
+    verif_hooks::record(verif_hooks::Event::Uncompressed {
+        len,
+        storage_ix_start,
+        storage_ix: *storage_ix,
+    });
     RewindBitPosition(storage_ix_start, storage_ix, storage);
     store_meta_block_header(len, true, storage_ix, storage);
     *storage_ix = storage_ix.wrapping_add(7u32 as usize) & !7u32 as usize;
@@ -553,6 +568,8 @@ fn ShouldMergeBlock(data: &[u8], len: usize, depths: &[u8]) -> bool {
         for i in 0usize..256usize {
             r -= (histo[i] as floatX) * ((depths[i] as floatX) + FastLog2(histo[i] as u64));
         }
+        #[cfg(brotli_verif)]
+        verif_hooks::record(verif_hooks::Event::Merge(r >= 0.0));
         r >= 0.0
     }
 }
@@ -1206,5 +1223,121 @@ pub(crate) fn compress_fragment_fast<AllocHT: alloc::Allocator<HuffmanTree>>(
         BrotliWriteBits(1usize, 1, storage_ix, storage);
         BrotliWriteBits(1usize, 1, storage_ix, storage);
         *storage_ix = storage_ix.wrapping_add(7u32 as usize) & !7u32 as usize;
+    }
+}
+
+/// Verification hooks (compiled only with `--cfg brotli_verif`): a thread-local log of the
+/// decisions `compress_fragment_fast_impl` takes that an executable model treats as recorded
+/// answers (`ShouldMergeBlock`, which is floating point), of every literal code it builds and of
+/// every fallback to an uncompressed meta-block, plus thin public wrappers around the private
+/// helpers.  Recording is off until `start()` is called on the thread.  No behaviour of the
+/// crate depends on it.
+#[cfg(brotli_verif)]
+pub mod verif_hooks {
+    use super::*;
+    use std::cell::RefCell;
+    use std::vec::Vec;
+
+    #[derive(Clone, Debug)]
+    pub enum Event {
+        /// answer of `ShouldMergeBlock`
+        Merge(bool),
+        /// `BuildAndStoreLiteralPrefixCode(input, input_size, ..)` returned these depths
+        LiteralCode { input_size: usize, depths: [u8; 256] },
+        /// `EmitUncompressedMetaBlock(begin, len, storage_ix_start, storage_ix, ..)` entered
+        Uncompressed {
+            len: usize,
+            storage_ix_start: usize,
+            storage_ix: usize,
+        },
+    }
+
+    thread_local! {
+        static EVENTS: RefCell<Option<Vec<Event>>> = RefCell::new(None);
+    }
+
+    pub fn start() {
+        EVENTS.with(|e| *e.borrow_mut() = Some(Vec::new()));
+    }
+
+    pub fn take() -> Vec<Event> {
+        EVENTS.with(|e| e.borrow_mut().take().unwrap_or_default())
+    }
+
+    pub(super) fn record(ev: Event) {
+        EVENTS.with(|e| {
+            if let Some(v) = e.borrow_mut().as_mut() {
+                v.push(ev);
+            }
+        });
+    }
+
+    /// returns `literal_ratio`
+    pub fn build_and_store_literal_prefix_code<AllocHT: alloc::Allocator<HuffmanTree>>(
+        mht: &mut AllocHT,
+        input: &[u8],
+        input_size: usize,
+        depths: &mut [u8],
+        bits: &mut [u16],
+        storage_ix: &mut usize,
+        storage: &mut [u8],
+    ) -> usize {
+        BuildAndStoreLiteralPrefixCode(mht, input, input_size, depths, bits, storage_ix, storage)
+    }
+
+    pub fn build_and_store_command_prefix_code(
+        histogram: &[u32],
+        depth: &mut [u8],
+        bits: &mut [u16],
+        storage_ix: &mut usize,
+        storage: &mut [u8],
+    ) {
+        BuildAndStoreCommandPrefixCode(histogram, depth, bits, storage_ix, storage)
+    }
+
+    pub fn update_bits(n_bits: usize, bits: u32, pos: usize, array: &mut [u8]) {
+        UpdateBits(n_bits, bits, pos, array)
+    }
+
+    pub fn should_merge_block(data: &[u8], len: usize, depths: &[u8]) -> bool {
+        ShouldMergeBlock(data, len, depths)
+    }
+
+    pub fn should_use_uncompressed_mode(delta: isize, insertlen: usize, literal_ratio: usize) -> bool {
+        ShouldUseUncompressedMode(delta, insertlen, literal_ratio)
+    }
+
+    pub fn emit_uncompressed_meta_block(
+        begin: &[u8],
+        len: usize,
+        storage_ix_start: usize,
+        storage_ix: &mut usize,
+        storage: &mut [u8],
+    ) {
+        EmitUncompressedMetaBlock(begin, len, storage_ix_start, storage_ix, storage)
+    }
+
+    pub fn rewind_bit_position(new_storage_ix: usize, storage_ix: &mut usize, storage: &mut [u8]) {
+        RewindBitPosition(new_storage_ix, storage_ix, storage)
+    }
+
+    /// which: 0 EmitInsertLen, 1 EmitLongInsertLen, 2 EmitCopyLen, 3 EmitCopyLenLastDistance,
+    /// 4 EmitDistance
+    pub fn emit(
+        which: u32,
+        value: usize,
+        depth: &[u8],
+        bits: &[u16],
+        histo: &mut [u32],
+        storage_ix: &mut usize,
+        storage: &mut [u8],
+    ) {
+        match which {
+            0 => EmitInsertLen(value, depth, bits, histo, storage_ix, storage),
+            1 => EmitLongInsertLen(value, depth, bits, histo, storage_ix, storage),
+            2 => EmitCopyLen(value, depth, bits, histo, storage_ix, storage),
+            3 => EmitCopyLenLastDistance(value, depth, bits, histo, storage_ix, storage),
+            _ => EmitDistance(value, depth, bits, histo, storage_ix, storage),
+        }
     }
 }
